@@ -111,3 +111,129 @@ R.contract(
     locals={"results": KR, "results_ordered": KR, "results_unordered": "List[Tuple[int, Un[PK], Un[PR]]]",
             "errors": "List[Tuple[Un[OK], int, TaskError]]", "futures": "List[Tuple[int, Un[PK], Future[Un[PR]]]]"},
 )
+
+
+# ------------------------------------------------------------------ call-site obligations of run_parallel
+# The callers (t1_propagate, t2_semantic: > 600 lines each, numpy / datetime inside) are not interpreted
+# symbolically; instead every syntactic call of run_parallel in the repository gets one obligation per `requires`
+# clause of the contract above, evaluated by the spec evaluator on the *shape* of the actual arguments:
+#   None literal -> None;  lambda / nested def / module-level function -> a callable;  anything else -> unknown
+#   (an unconstrained presence flag, so the clause is not discharged);  argument missing -> clause false.
+# Obligation name: run_parallel-callsites/<file>:<enclosing function>/call#<k>/pre:<clause>.
+
+def _enclosing_functions(tree):
+    """-> {id(call node): [enclosing FunctionDef / ClassDef chain]} for every ast.Call in the module"""
+    out = {}
+
+    def walk(n, chain):
+        for ch in ast.iter_child_nodes(n):
+            if isinstance(ch, (ast.FunctionDef, ast.AsyncFunctionDef, ast.ClassDef)):
+                walk(ch, chain + [ch])
+            else:
+                if isinstance(ch, ast.Call):
+                    out[id(ch)] = chain
+                walk(ch, chain)
+
+    walk(tree, [])
+    return out
+
+
+def _binds_callable(chain, tree, name):
+    """is `name` bound, in the enclosing functions or at module level, to a def / lambda only?"""
+    scopes = [c for c in chain if isinstance(c, (ast.FunctionDef, ast.AsyncFunctionDef))] + [tree]
+    for sc in list(reversed(scopes[:-1])) + [tree]:
+        if not isinstance(sc, ast.Module):
+            a = sc.args
+            if name in {p.arg for p in a.posonlyargs + a.args + a.kwonlyargs}:
+                return False
+        found = None
+        for n in ast.walk(sc):
+            if isinstance(n, (ast.FunctionDef, ast.AsyncFunctionDef)) and n.name == name and n is not sc:
+                found = True if found is None else found
+            elif isinstance(n, ast.Assign) and any(isinstance(t, ast.Name) and t.id == name for t in n.targets):
+                found = isinstance(n.value, ast.Lambda) and (found is None or found)
+            elif isinstance(n, (ast.AnnAssign, ast.AugAssign, ast.NamedExpr)) and isinstance(n.target, ast.Name) \
+                    and n.target.id == name:
+                found = False
+        if found is not None:
+            return bool(found)
+    return False
+
+
+def _run_parallel_callsites():
+    import z3
+    from pyvc import frontend
+    from pyvc.verifier import Verifier
+    from pyvc.core import Path, Env, VOptObj
+    from pyvc.interp import Interp
+    from pyvc.values import VNone, VFunc
+    repo = os.environ.get("VERIF_REPO", frontend.REPO)
+    contract = [c for c in R.variants if c.key == PAR + "run_parallel"][0]
+    mod, _, fnode = frontend.find_function(contract.key, repo)
+    kwonly = [p.arg for p in fnode.args.kwonlyargs]
+    positional = [p.arg for p in fnode.args.posonlyargs + fnode.args.args]
+    goals = []
+    nsites = 0
+    for root, dirs, files in os.walk(os.path.join(repo, "clematis")):
+        dirs.sort()
+        for fn in sorted(files):
+            if not fn.endswith(".py"):
+                continue
+            path = os.path.join(root, fn)
+            rel = os.path.relpath(path, repo)
+            try:
+                with open(path, encoding="utf-8") as fh:
+                    src = fh.read()
+            except OSError:
+                continue
+            if "run_parallel" not in src or rel == "clematis/engine/util/parallel.py":
+                continue
+            tree = ast.parse(src, filename=path)
+            imported = any(isinstance(n, ast.ImportFrom) and (n.module or "").endswith("util.parallel")
+                           and any(a.name == "run_parallel" and (a.asname or a.name) == "run_parallel" for a in n.names)
+                           for n in ast.walk(tree))
+            chains = _enclosing_functions(tree)
+            per_fn = {}
+            for call in [n for n in ast.walk(tree) if isinstance(n, ast.Call)]:
+                f = call.func
+                if not ((isinstance(f, ast.Name) and f.id == "run_parallel" and imported)
+                        or (isinstance(f, ast.Attribute) and f.attr == "run_parallel")):
+                    continue
+                nsites += 1
+                chain = chains.get(id(call), [])
+                qual = ".".join(c.name for c in chain) or "<module>"
+                k = per_fn.get(qual, 0)
+                per_fn[qual] = k + 1
+                ver = Verifier(R)
+                I = Interp(ver, Path(ver, []))
+                env = Env(None, mod)
+                actual = {}
+                for pn, a in zip(positional, call.args):
+                    actual[pn] = a
+                for kw in call.keywords:
+                    if kw.arg:
+                        actual[kw.arg] = kw.value
+                for pn in positional + kwonly:
+                    a = actual.get(pn)
+                    if a is None:
+                        continue
+                    if isinstance(a, ast.Constant) and a.value is None:
+                        env.set(pn, VNone())
+                    elif isinstance(a, ast.Lambda) or (isinstance(a, ast.Name) and _binds_callable(chain, tree, a.id)):
+                        env.set(pn, VFunc("param", pn))
+                    else:
+                        env.set(pn, VOptObj(z3.Bool("shape_unknown_%s" % pn), VFunc("param", pn)))
+                here = z3.Bool("call_at_%s:%d(%s)" % (rel, call.lineno, ", ".join(
+                    "%s=%s" % (kw.arg, ast.unparse(kw.value)[:40]) for kw in call.keywords if kw.arg in kwonly)))
+                for nm, spec_src in contract.requires:
+                    names = {n.id for n in ast.walk(ast.parse(spec_src, mode="eval")) if isinstance(n, ast.Name)}
+                    if any(pn in names and pn not in env.vars for pn in positional + kwonly):
+                        phi = z3.BoolVal(False)     # a required argument is not passed at all
+                    else:
+                        phi = I.eval_spec(spec_src, env)
+                    goals.append(("%s:%s/call#%d/pre:%s" % (rel, qual, k, nm), [], z3.Implies(here, phi)))
+    goals.append(("scan/found-call-sites", [], z3.BoolVal(nsites >= 1)))
+    return goals
+
+
+R.lemma("run_parallel-callsites", "C09", _run_parallel_callsites)
